@@ -147,6 +147,11 @@ def _run_world(arg):
         pr = psutil.Process(p)
         r = ref[p]
         feat = features(parents, p)
+        if opts.get("clockstep"):
+            # the object exists; then the wall clock is stepped (the kernel publishes another btime) and the program asks the
+            # system-wide boot_time() again: nobody's pid was recycled, the table is the same, so are the answers
+            w.btime += opts["clockstep"]
+            outcome(psutil.boot_time)
         count[0] = 0
         got = outcome(lambda: [c.pid for c in pr.children()])
         if got[0] != "ok" or sorted(got[1]) != r["direct"] or len(set(got[1])) != len(got[1]):
@@ -184,6 +189,14 @@ def _run_world(arg):
     return bad, skipped
 
 
+# what may have been asked earlier inside the same oneshot() block (every tree question, the identity questions they rest on, and
+# one that has nothing to do with the tree)
+PRIOR_CALLS = {"is_running": lambda pr: pr.is_running(), "ppid": lambda pr: pr.ppid(), "children": lambda pr: pr.children(),
+               "children-recursive": lambda pr: pr.children(recursive=True), "parent": lambda pr: pr.parent(),
+               "parents": lambda pr: pr.parents(), "name": lambda pr: pr.name()}
+ONESHOT_PRIORS = ["none", "is_running", "ppid", "children", "children-recursive", "parent", "parents", "name"]
+
+
 def _run_reused(arg):
     """the caller's own pid has been recycled: everything raises NoSuchProcess"""
     parents, ranks, seed, victim = arg[:4]
@@ -195,6 +208,15 @@ def _run_reused(arg):
     w.logging = False
     pr = psutil.Process(victim)
     old = w.procs[victim]
+    prior = arg[6] if len(arg) > 6 else None
+    cm = None
+    if prior is not None:
+        # the questions are asked inside ONE `with pr.oneshot():` block that was opened -- and in which `prior` was already asked
+        # once -- while the pid still belonged to the original process; the pid is recycled while the block is open
+        cm = pr.oneshot()
+        cm.__enter__()
+        if prior != "none":
+            outcome(PRIOR_CALLS[prior], pr)
     w.vanish(victim)
     if len(arg) > 5 and arg[5]:
         outcome(pr.wait, 0)         # the caller has waited for the process first (a finished wait() is remembered by the object)
@@ -208,6 +230,8 @@ def _run_reused(arg):
         got = outcome(fn)
         if not (got[0] == "exc" and got[1] == "NoSuchProcess"):
             bad.append(("recycled-caller:%s" % name, "%s() on a recycled pid -> %r" % (name, got if got[0] != "ok" else ("ok", str(got[1])))))
+    if cm is not None:
+        outcome(cm.__exit__, None, None, None)
     return bad, 0
 
 
@@ -551,12 +575,15 @@ def run(ctx):
     for parents in itertools.product(range(0, 5), repeat=3):
         worlds.append((list(parents), [0, 1, 2], ctx.seed, None, {"rev": True}))
         worlds.append((list(parents), [2, 1, 0], ctx.seed, None, {"rev": True}))
+    for parents in itertools.product(range(0, 5), repeat=3):
+        for step in (-3600, -1, 1, 3600):
+            worlds.append((list(parents), [0, 1, 2], ctx.seed, None, {"clockstep": step}))
     res = ctx.pmap(run_world, worlds)
     viols, skipped = [], 0
     for wd, (bad, sk) in zip(worlds, res):
         skipped += sk
         for cause, msg in bad:
-            viols.append({"cause": cause + (":adversarial-name" if len(wd) > 3 and wd[3] else "") + (":unordered-listing" if len(wd) > 4 and wd[4].get("rev") else "") + (":old-kernel-stat-record" if len(wd) > 4 and wd[4].get("nfields") else ""),
+            viols.append({"cause": cause + (":adversarial-name" if len(wd) > 3 and wd[3] else "") + (":unordered-listing" if len(wd) > 4 and wd[4].get("rev") else "") + (":old-kernel-stat-record" if len(wd) > 4 and wd[4].get("nfields") else "") + (":after-clock-step-and-boot_time" if len(wd) > 4 and wd[4].get("clockstep") else ""),
                           "msg": msg, "case": {"parents": wd[0], "ranks": wd[1], "names": wd[3] if len(wd) > 3 else None,
                                                "opts": wd[4] if len(wd) > 4 else None}})
     reused = []
@@ -565,11 +592,15 @@ def run(ctx):
             reused.append((list(parents), [0, 1, 2], ctx.seed, victim))
             reused.append((list(parents), [0, 1, 2], ctx.seed, victim, True))
             reused.append((list(parents), [0, 1, 2], ctx.seed, victim, False, True))
+            for prior in ONESHOT_PRIORS:
+                reused.append((list(parents), [0, 1, 2], ctx.seed, victim, False, False, prior))
     res2 = ctx.pmap(run_reused, reused)
     for wd, (bad, _) in zip(reused, res2):
         for cause, msg in bad:
-            viols.append({"cause": cause + (":own-pid" if len(wd) > 4 and wd[4] else "") + (":after-wait" if len(wd) > 5 and wd[5] else ""), "msg": msg,
-                          "case": {"parents": wd[0], "ranks": wd[1], "recycled": wd[3], "own": len(wd) > 4 and wd[4], "waited": len(wd) > 5 and wd[5]}})
+            viols.append({"cause": cause + (":own-pid" if len(wd) > 4 and wd[4] else "") + (":after-wait" if len(wd) > 5 and wd[5] else "")
+                          + (":inside-oneshot-after-%s" % wd[6] if len(wd) > 6 and wd[6] else ""), "msg": msg,
+                          "case": {"parents": wd[0], "ranks": wd[1], "recycled": wd[3], "own": len(wd) > 4 and wd[4], "waited": len(wd) > 5 and wd[5],
+                                   "oneshot_prior": wd[6] if len(wd) > 6 else None}})
     hist = []
     for parents in itertools.product(range(0, 4), repeat=3):
         for victim in (1, 2, 3):
@@ -614,7 +645,7 @@ def replay(ctx, case):
         bad, _ = run_after_history((case["parents"], case["ranks"], ctx.seed, case["after_history"][0], case["after_history"][1]))
         return {"violated": bool(bad), "viols": bad}
     if "recycled" in case:
-        bad, _ = run_reused((case["parents"], case["ranks"], ctx.seed, case["recycled"], bool(case.get("own")), bool(case.get("waited"))))
+        bad, _ = run_reused((case["parents"], case["ranks"], ctx.seed, case["recycled"], bool(case.get("own")), bool(case.get("waited")), case.get("oneshot_prior")))
     else:
         bad, _ = run_world((case["parents"], case["ranks"], ctx.seed, case.get("names"), case.get("opts") or {}))
     return {"violated": bool(bad), "viols": bad}
